@@ -29,7 +29,12 @@ import itertools
 SPECIAL = ("varargs", "kwargs", "caller")
 UNDEF = ("<undef>",)          # sentinel of the model
 OUTER_AT_CALL = "O2"          # `o` is 'O1' before the macro definition, 'O2' after it
-CB_FORMS = {"call0": (), "callx": (("x", None),), "kwcb": (("x", None),)}
+# callv: call-block parameters whose defaults name the parameter itself (outer variable of
+# that name absent: x / defined: q) and a later parameter (w=r)
+CBV_PARAMS = (("x", ("p", "x")), ("q", ("p", "q")), ("w", ("p", "r")), ("r", ("c", "Dr")))
+CB_FORMS = {"call0": (), "callx": (("x", None),), "kwcb": (("x", None),), "callv": CBV_PARAMS}
+CB_MACRO = {"call0": "cb0", "callx": "cbx", "kwcb": "cbx", "callv": "cbv"}
+OUTER_DEFS = "{% set q = 'OUTq' %}{% set r = 'OUTr' %}"   # outer variables named like parameters q, r
 
 
 # --------------------------------------------------------------------------
@@ -76,6 +81,23 @@ EXPLICIT_PARAM_LISTS = [
     (("a", None), ("kwargs", ("c", "Dkwargs"))),
     (("varargs", None), ("kwargs", None)),
     (("a", None), ("varargs", None), ("kwargs", None), ("caller", ("c", "Dcaller"))),
+]
+
+# defaults that name the parameter itself or a later parameter; q and r also exist as outer
+# template variables (OUTER_DEFS), a b c do not
+SELFREF_PARAM_LISTS = [
+    (("a", ("p", "a")),),
+    (("q", ("p", "q")),),
+    (("a", None), ("b", ("p", "b"))),
+    (("a", None), ("q", ("p", "q"))),
+    (("a", ("p", "b")), ("b", ("c", "Db"))),
+    (("q", ("p", "r")), ("r", ("c", "Dr"))),
+    (("a", ("p", "b")), ("b", ("p", "a"))),
+    (("q", ("p", "r")), ("r", ("p", "q"))),
+    (("a", ("p", "a")), ("b", ("p", "a"))),
+    (("q", ("p", "q")), ("r", ("o",))),
+    (("a", ("p", "c")), ("b", ("c", "Db")), ("c", ("p", "b"))),
+    (("q", ("p", "q")), ("a", ("p", "r")), ("r", ("p", "r"))),
 ]
 
 # parameter named like a Python keyword (the docs' own example uses `class`)
@@ -163,6 +185,7 @@ _P_CAL = ("C={{% if caller is not defined %}}NOCALLER{{% elif caller is callable
           "{{% else %}}{{{{ caller }}}}{{% endif %}};")
 CB0_BODY = "[cb]"
 CBX_BODY = "[x={{ x if x is defined else 'UNDEF' }}]"
+CBV_BODY = "[" + "".join(_P_ORD.format(n=n) for n, _ in CBV_PARAMS) + "]"
 
 
 def default_source(d):
@@ -194,8 +217,9 @@ def body_source(sig):
 
 def macro_source(sig):
     """template that defines m plus the helper macros used as callers from Python."""
-    return ("{% set o = 'O1' %}{% macro m(" + sig_source(sig[0]) + ") %}" + body_source(sig) + "{% endmacro %}"
+    return (OUTER_DEFS + "{% set o = 'O1' %}{% macro m(" + sig_source(sig[0]) + ") %}" + body_source(sig) + "{% endmacro %}"
             "{% macro cb0() %}" + CB0_BODY + "{% endmacro %}{% macro cbx(x) %}" + CBX_BODY + "{% endmacro %}"
+            "{% macro cbv(" + sig_source(CBV_PARAMS) + ") %}" + CBV_BODY + "{% endmacro %}"
             "{% set o = 'O2' %}")
 
 
@@ -227,6 +251,8 @@ def call_source(call):
         return "{{ m(" + a + ") }}"
     if form == "call0":
         return "{% call m(" + a + ") %}" + CB0_BODY + "{% endcall %}"
+    if form == "callv":
+        return "{% call(" + sig_source(CBV_PARAMS) + ") m(" + a + ") %}" + CBV_BODY + "{% endcall %}"
     return "{% call(x) m(" + a + ") %}" + CBX_BODY + "{% endcall %}"
 
 
@@ -296,7 +322,10 @@ def _bind(params, uses, pos, kw):
         elif d[0] == "c":
             env[n] = d[1]
         elif d[0] == "p":
-            env[n] = env[d[1]]
+            # an earlier parameter has its value by now.  CALIBRATED: the parameter itself and later
+            # parameters are local names from the start of the call — still undefined here unless the
+            # caller supplied the later one — and an outer variable of that name is never consulted.
+            env[n] = env.get(d[1], UNDEF)
         else:
             env[n] = OUTER_AT_CALL
     return env
@@ -311,7 +340,7 @@ def _call_cb(cb, args):
     env = _bind(params, frozenset(), list(args), {})
     if not params:
         return CB0_BODY
-    return "[x=" + _show(env["x"]) + "]"
+    return "[" + "".join(f"{n}={_show(env[n])};" if len(params) > 1 else f"{n}={_show(env[n])}" for n, _ in params) + "]"
 
 
 def _render_body(sig, env):
